@@ -113,6 +113,24 @@ Theorem C17_cross_protocol_eviction :
 Proof. exact component_claim_events. Qed.
 Print Assumptions C17_cross_protocol_eviction.
 
+(* The call sites as written (MixedAccess guard, MakeTupleKey of the session's VLANs and MAC): no
+   effect at all on a non-mixed S-VLAN; otherwise one Claim for the session's tuple and at most one
+   terminate event, naming the previous owner and the tuple, iff it was of another protocol. *)
+Theorem C17_caller_claim_events :
+  forall self mixed r s c m sid,
+    let k := make_tuple_key s c m in
+    snd (caller_claim self mixed r s c m sid) =
+      (if mixed then
+         match lookup r k with
+         | Some prev => if bytes_eqb (o_proto prev) self then [] else [(o_sid prev, k)]
+         | None => []
+         end
+       else []) /\
+    fst (caller_claim self mixed r s c m sid) =
+      (if mixed then fst (reg_step r (OClaim k (mkOwner self sid k))) else r).
+Proof. exact caller_claim_events. Qed.
+Print Assumptions C17_caller_claim_events.
+
 (* Generic: N threads running arbitrary programs of operations, each operation executed as
    invoke; acquire the (reader/writer) lock of its cell; read the cell; compute and write back;
    unlock; respond — with arbitrary interleaving of these small steps.  Every history of a
